@@ -489,6 +489,15 @@ class SolverFaultsEngine(EngineBase):
                  'every input array); planet: %s' % (i, label, exit_path, '; '.join('%s, %s element %d now %s' % tuple(x) for x in g[:3]), ctx['stack']),
                  exit=reply['kind'])
         bump('probe:guard_zones_checked')
+        # 3. an unsuccessful solve is REPORTED (success=False + message) unless raise_on_fail was asked for: the solver's own
+        # failure exception, or an interpreter-level error escaping from its internals, is not an argument-validation error
+        if reply['kind'] == 'raised' and not o.get('raise_on_fail') and \
+                reply.get('exception') in ('RuntimeError', 'UnboundLocalError', 'NameError', 'SystemError', 'IndexError', 'KeyError',
+                                           'ZeroDivisionError', 'RecursionError', 'StopIteration', 'MemoryError', 'OverflowError'):
+            viol('protocol', 'raised-without-raise_on_fail',
+                 'step %d %s: raise_on_fail was not requested, yet the call raised %s: %s (an unsuccessful solve must come back as '
+                 'success=False with a message; only malformed arguments may raise); planet: %s'
+                 % (i, label, reply['exception'], reply.get('message', '')[:120], ctx['stack']), exception=reply['exception'])
         # 1./3. protocol
         if reply['kind'] == 'returned':
             if reply.get('type') != 'RadialSolverSolution':
